@@ -82,8 +82,10 @@ def mk_line(e, shape, k):
     raise KeyError(shape)
 
 
-def h_prog(e, shapes, directives):
-    """directives: 'none' (no segment directives; only if no variable is used), 'data_first', 'text_first'"""
+def h_prog(e, shapes, directives, via="load"):
+    """directives: 'none' (no segment directives; only if no variable is used), 'data_first', 'text_first';
+    via: 'load' = RiscvSimulation.load_program, 'parser' = RiscvParser().parse(text, state) into a
+    state that already holds a longer program (the parser API the repository's tests use)"""
     from architecture_simulator.simulation.riscv_simulation import RiscvSimulation
 
     T = Text(e)
@@ -111,7 +113,13 @@ def h_prog(e, shapes, directives):
         text = asm.render(items, T, directives="none")
     sim = RiscvSimulation()
     try:
-        sim.load_program(text)
+        if via == "parser":
+            from architecture_simulator.isa.riscv.riscv_parser import RiscvParser
+
+            RiscvParser().parse("\n".join(["addi x%d, x0, %d" % (k + 1, k) for k in range(12)]), sim.state)
+            RiscvParser().parse(text, sim.state)
+        else:
+            sim.load_program(text)
         exc = None
     except Exception as ex:  # noqa
         exc = ex
@@ -269,6 +277,8 @@ def jobs(tier, seed):
             dirs = ["none", "data_first"] if n == 1 else [("none", "data_first", "text_first")[(SHAPES.index(sk[0]) + SHAPES.index(sk[1])) % 3]]
             for d in dirs:
                 out.append({"label": "prog-%s-%s" % (".".join(sk), d), "harness": "prog", "args": {"shapes": sk, "directives": d}, "cost": 3 * n, "validate_every": 2})
+    for sk in SHAPES:
+        out.append({"label": "reparse-%s" % sk, "harness": "prog", "args": {"shapes": [sk], "directives": "none" if sk not in ("la", "lw_var", "sb_var") else "data_first", "via": "parser"}, "cost": 3, "validate_every": 2})
     if tier == "thorough":
         for i, sk in enumerate(itertools.product(SHAPES, repeat=3)):
             if (i + seed) % 8 != 0:
